@@ -14,6 +14,8 @@ def _c14_case(c):
         return {"kind": "E", "case": _json.loads(bytes.fromhex(p[-1][1:]).decode("utf-8"))}
     if p[0] == "K":
         return {"kind": "M", "case": {"caps": [ch == "1" for ch in p[1]]}}
+    if p[0] == "P":
+        return {"kind": "P", "ops": " ".join(p[1:])}
     return {"raw": c}
 
 
@@ -102,6 +104,11 @@ def _vm_goal(case, out):
         if p[0] == "D":
             kind = {"artifact": "KArtifact", "index": "KIndex"}.get(p[1], "KImage")
             return "referrer_art %s %s %s = %s" % (kind, p[2], p[3], o[1])
+        if p[0] == "P":
+            if "X" in o[1]:
+                return None
+            return "pool_trace None %s = %s" % (_vm_lst(["true" if x[0] == "g" else "false" for x in p[1:]], "bool"),
+                                                _vm_lst(["true" if ch == "N" else "false" for ch in o[1]], "bool"))
         if p[0] == "M":
             n = int(p[1])
             changes = _vm_lst(["Add (mkDesc %d 0 0)" % (t + 1) for t in range(n)], "change")
@@ -138,7 +145,7 @@ def _c14_vm_sample(d, tier, coq, build, want=300):
         for l in f:
             i, _, o = l.rstrip("\n").partition(" ")
             outs[i] = o
-    quota = {"A": 90, "R": 20, "F": 20, "T": 20, "K": 10, "D": 20, "M": 70, "X": 70, "L": 20, "XL": 25}
+    quota = {"A": 90, "R": 20, "F": 20, "T": 20, "K": 10, "D": 20, "M": 70, "X": 70, "L": 20, "XL": 25, "P": 15}
 
     def kind(c):
         k = c.split(" ", 1)[0]
@@ -198,7 +205,7 @@ CONFIG = {
     "timeout_thorough": 3000,
     "assumptions": [
         "a descriptor is abstracted to its key (descriptor.FromOCI: media type x digest x size, interned injectively by the harness, 0 = all-zero), its artifact type and the rest of its payload; changes name non-zero descriptors (pushWithIndexing/deleteWithIndexing only index the three manifest media types) - hypothesis changes_nonempty / guard of EGet",
-        "Merge: Model/Merge.v hands a batch result to its members in one step (EComplete). Model/MergeFine.v is the same system at CHANNEL granularity (buffered-1 status channels per generation, main status in the buffer, close / blocking sends in complete(), late receivers, the swap as its own lock region); C14_fine_simulated proves that every run of the channel-level system is simulated by a run of Model/Merge.v, so every theorem about reachable states of Model/Merge.v transfers (C14_fine_no_lost_update, C14_fine_structure); both models replay every M / X schedule and must agree with each other and with the implementation; Model/Delivery.v (isolated delivery step: exactly once, boundedness) is kept. Not modelled: a caller is identified with one call; goroutine scheduling inside a lock region",
+        "Merge: Model/Merge.v hands a batch result to its members in one step (EComplete). Model/MergeFine.v is the same system at CHANNEL granularity (buffered-1 status channels per generation, main status in the buffer, close / blocking sends in complete(), late receivers, the swap as its own lock region); C14_fine_simulated proves that every run of the channel-level system is simulated by a run of Model/Merge.v, so every theorem about reachable states of Model/Merge.v transfers (C14_fine_no_lost_update, C14_fine_structure); both models replay every M / X schedule and must agree with each other and with the implementation; Model/Delivery.v (isolated delivery step: exactly once, boundedness) is kept. Pool.Get / release = the reference count pool_get / pool_put of the model (C14_pool_is_refcount, C14_pool_shared), tied by the P lines: identity of the pooled Merge per Get in lock order, sequential sequences and one FORCED race (a release waiting for the pool lock while a Get of the same key overtakes it; forced through Pool.New of another key, goroutine states from runtime.Stack). Not modelled: a caller is identified with one call; goroutine scheduling inside a lock region",
         "one referrers tag = one copy of the transition system; different tags touch disjoint Pool keys and Merge objects (C14_tags_independent is about the product, by construction). Index manifests are content-addressed: an index without a single referrer (the empty index, zero descriptors only) can be ONE manifest under several tags; its deletion by another tag's update is the environment event EExtDrop of the per-tag system (the tag is dropped; as a set nothing changes) or a 404 on this tag's own DELETE (EDel fail); both are generated (pre-existing indexes are byte-identical across subjects unless DistinctPre) and replayed by the model",
         "registry: a failed index exchange (EPrepare/EPut/EDel fail) leaves the registry cell unchanged; a LOST RESPONSE of the index PUT or of the index DELETE (takes effect, answered 500) is a model event of its own (EPutLost / EDelLost; ghost result RLost, seen by the callers as the plain error; a lost DELETE after a PUT yields the index-delete error): C14_lost_response (nil / index-delete error => took effect; plain error => took effect iff the response was lost) and C14_plain_error_no_effect (truthful registry: plain error <=> no effect); the projected X / Y lines of runs with lost responses are judged (results, index, PUT bodies, dangling count: the old index stays); lost responses of the manifest exchanges are not generated; DELETE of a manifest by digest also drops tags pointing at it",
         "Go runtime scheduling / memory model, sync.Mutex, channels, sync/atomic CompareAndSwap, encoding/json and net/http are modelled, not verified; interleavings of the visible events (lock regions, HTTP exchanges) are quantified over",
